@@ -41,6 +41,7 @@ type histCall struct {
 	PKey   string `json:"pkey"`
 	DKey   string `json:"dkey"`
 	DClass string `json:"dclass"`
+	PClass string `json:"pclass,omitempty"`
 }
 
 type histObs struct {
